@@ -622,3 +622,42 @@ Print Assumptions mode_corrupted_rejected.
 Print Assumptions platform_corrupted_rejected.
 Print Assumptions tables_marker_replaced_rejected.
 Print Assumptions tables_int_corrupted_rejected.
+
+(* ------------------------------------------------------------------ which mode tokens are accepted *)
+(* a mode token is accepted only if it is the null / empty marker or EXACTLY the code of a mode: a longer token that
+   merely begins with a mode letter ("Mx", "CD", "RAW") is an unknown mode *)
+Lemma decode_modes_exact : forall t m, decode_modes t = DOk (Some m) -> t = mode_value m.
+Proof.
+  intros t m H. unfold decode_modes in H.
+  destruct (bytes_eqb t null_value || bytes_eqb t empty_value); [discriminate|].
+  unfold mode_of_token in H.
+  destruct (find (fun m0 => bytes_eqb (mode_value m0) t) all_modes) as [m'|] eqn:F; [|discriminate].
+  inversion H; subst m'. apply find_some in F. destruct F as [_ E].
+  symmetry. apply bytes_eqb_true. exact E.
+Qed.
+
+Lemma decode_modes_none : forall t, decode_modes t = DOk None -> t = null_value \/ t = empty_value.
+Proof.
+  intros t H. unfold decode_modes in H.
+  destruct (bytes_eqb t null_value) eqn:A; [left; apply bytes_eqb_true; exact A|].
+  destruct (bytes_eqb t empty_value) eqn:B; [right; apply bytes_eqb_true; exact B|].
+  cbn [orb] in H. destruct (mode_of_token t); discriminate.
+Qed.
+
+Lemma decode_modes_unknown : forall t,
+  t <> null_value -> t <> empty_value -> (forall m, In m all_modes -> t <> mode_value m) ->
+  exists e, decode_modes t = DErr e.
+Proof.
+  intros t Hn He Hm. destruct (decode_modes t) as [[m|]|e] eqn:D.
+  - exfalso. apply (Hm m); [destruct m; cbn; auto|]. exact (decode_modes_exact _ _ D).
+  - exfalso. destruct (decode_modes_none _ D); contradiction.
+  - exists e. reflexivity.
+Qed.
+
+Example decode_modes_examples :
+  decode_modes (bs "M") = DOk (Some ModeMerge) /\ decode_modes (bs "#") = DOk None /\
+  decode_modes (bs "Mx") = DErr (bs "Unknown mode 'Mx' found") /\
+  decode_modes (bs "CD") = DErr (bs "Unknown mode 'CD' found") /\
+  decode_modes (bs "RAW") = DErr (bs "Unknown mode 'RAW' found") /\
+  decode_modes [] = DErr (bs "Unknown mode '' found").
+Proof. vm_compute. repeat split; reflexivity. Qed.
